@@ -5,7 +5,7 @@ PROP = 'C06'
 LEVEL = 'exploration'
 EVAL_KEY = 'steps'
 TIERS = {
-    'quick': {'runs': 1200, 'opts': {'length': [40, 40]}, 'chunk': 15},
+    'quick': {'runs': 2000, 'opts': {'length': [40, 40]}, 'chunk': 20},
     'thorough': {'runs': 40000, 'opts': {'length': [40, 120], 'pairs': True}, 'chunk': 50, 'time_cap': 1500},
 }
 RULE = ('seeded histories of public torchtt calls over a heap of <=12 live, aliasing TT objects (order<=4, sizes<=4, '
